@@ -18,7 +18,10 @@ CONFIG = {'assumptions': [
     'RELR addresses are compared as unbounded integers; streams whose addresses pass 2^wordbits are out of domain',
     'ELF container (Ehdr/Shdr/Phdr) assembled by the harness; Rel/Rela/Relr/Sym/Dyn records by the Coq spec encoders']}
 LEVEL = {'text': 'Machine-checked: REL/RELA (incl. MIPS64 packed r_info) table round trips for every entry list, RELR '
-                 'shifting-loop = gABI bitmap reading for every word list, every regenerated recipe of the listed '
+                 'shifting-loop = gABI bitmap reading for every word list, the RELR memo (_cached_relocations) is None or the '
+                 'full expansion after every finite history of calls (walks started / resumed / abandoned, num_relocations, '
+                 'get_relocation, complete walks) and every answer of a RELR or REL/RELA table object after any such history '
+                 'equals the stateless expansion, every regenerated recipe of the listed '
                  'machines equals the psABI formula modulo the field width for all integers, the apply loop writes '
                  'exactly the wrapped value in file byte order and changes no other byte, error classes exact, no '
                  'relocation when disabled. Recipes, calc functions (symbolic evaluation), machine dispatch and record '
@@ -28,7 +31,10 @@ LEVEL = {'text': 'Machine-checked: REL/RELA (incl. MIPS64 packed r_info) table r
          'note': 'Trusted: Coq kernel, tools/gen symbolic evaluator, ExtrOcamlBasic extraction, harness image assembler. '
                  'No axioms. psABI tables written from the processor supplements (cross-checked with /usr/include/elf.h numbers).'}
 RULE = ('cases: REL/RELA tables (both classes, byte orders, MIPS64, 0..many entries, negative addends, garbage around) read '
-        'through section, raw table and dynamic tags; RELR word streams of every bit-pattern class; relocation application '
+        'through section, raw table and dynamic tags; RELR word streams of every bit-pattern class; histories of calls on ONE '
+        'table object (RelrRelocationSection / RelrRelocationTable / RelocationSection / RelocationTable): walks started, '
+        'resumed by next() or a for loop left by break, abandoned by close() or by dropping the generator, interleaved with '
+        'num_relocations / get_relocation(n) / complete walks, every answer compared; relocation application '
         'on synthesized relocatable images for every (machine, flavour, type) with random S/A/V, overlapping and boundary '
         'offsets, error classes, relocation on/off, via get_dwarf_info and via RelocationHandler. distinct = hash(kind, '
         'abstract); non-trivial = at least one entry/word/relocation or an error case')
@@ -371,10 +377,92 @@ def gen_dyn(ctx, cases):
                     cases.append(('dyn', [le, is64, em, tables, quirk, via, order]))
 
 
+def gen_history(rng, count):
+    """a history of calls on ONE table object: [['start'], ['next', g, how], ['close', g, how], ['num'], ['get', n],
+    ['iter']].  g = generator number in creation order; how = 'next' | 'for' (resumed by next(g) or by a for loop
+    left with break) resp. 'close' | 'del' (g.close() or the last reference dropped).  Half of the histories begin
+    with a walk that is abandoned after 0..3 items, then ask the table; count only aims the indices."""
+    h = []
+    live = []          # generators the harness still holds
+    ngen = 0
+    if rng.random() < 0.5:
+        h.append(['start'])
+        live.append(0)
+        ngen = 1
+        for _ in range(rng.choice([0, 1, 1, 2, 3])):
+            h.append(['next', 0, rng.choice(['next', 'next', 'for'])])
+        c = rng.randrange(3)
+        if c < 2:
+            h.append(['close', 0, 'close' if c == 0 else 'del'])
+            if c == 1:
+                live.remove(0)
+    for _ in range(rng.choice([1, 2, 3, 4, 6, 9])):
+        c = rng.randrange(16)
+        if c < 2 and ngen < 4:
+            h.append(['start'])
+            live.append(ngen)
+            ngen += 1
+        elif c < 7 and live:
+            h.append(['next', rng.choice(live), rng.choice(['next', 'next', 'for'])])
+        elif c < 9 and live:
+            g = rng.choice(live)
+            how = rng.choice(['close', 'del'])
+            h.append(['close', g, how])
+            if how == 'del':
+                live.remove(g)
+        elif c < 11:
+            h.append(['num'])
+        elif c < 14:
+            q = rng.randrange(20)
+            if q == 0:
+                n = -rng.randint(1, count + 2)                 # Python list / file offset semantics: out of domain
+            elif q == 1:
+                n = count + rng.randrange(3)                    # past the end
+            else:
+                n = rng.randrange(count) if count else 0
+            h.append(['get', n])
+        else:
+            h.append(['iter'])
+    return h
+
+
+def _relr_count(ws, is64):
+    return sum(1 if w & 1 == 0 else bin(w >> 1).count('1') for w in ws)
+
+
+def gen_hist(ctx, cases):
+    rng = ctx.rng
+    reps = ctx.scale(40, 400)
+    for le in (True, False):
+        for is64 in (True, False):
+            bits = 64 if is64 else 32
+            fixed = [[0x1000, (1 << bits) - 1, 0x5555 | 1, 0x9000, 7], [0x1000], [], [0x2000, 1], [3, 0x1000]]
+            for i in range(reps):
+                if i < len(fixed):
+                    ws = fixed[i]
+                else:
+                    ws = gen_relr_words(rng, is64, rng.choice([1, 2, 3, 4, 6, 10]), lead_anchor=rng.random() < 0.95)
+                cases.append(('relr_hist', [le, is64, ws, rng.choice(['section', 'section', 'table']),
+                                            gen_history(rng, _relr_count(ws, is64))]))
+    reps = ctx.scale(5, 40)
+    for le in (True, False):
+        for is64 in (True, False):
+            for em in (EM['X64'] if is64 else EM['X86'], EM['MIPS'], EM['ARM']):
+                for rela in (True, False):
+                    mips64 = is64 and em == EM['MIPS']
+                    for n in [0, 1] + [rng.randint(2, 12) for _ in range(reps)]:
+                        ents = [gen_entry(rng, is64, mips64, rela) for _ in range(n)]
+                        gap = bytes(rng.randrange(1, 256) for _ in range(rng.choice([0, 1, 3, 7])))
+                        via = rng.choice(['section', 'section', 'raw'])
+                        slack = rng.randrange(entsize_of(is64, rela)) if via == 'raw' else 0
+                        cases.append(('rel_hist', [le, is64, em, rela, ents, gap, via, slack, gen_history(rng, n)]))
+
+
 def gen(ctx):
     cases = []
     gen_tables(ctx, cases)
     gen_relr(ctx, cases)
+    gen_hist(ctx, cases)
     gen_apply(ctx, cases)
     gen_dyn(ctx, cases)
     return cases
@@ -417,6 +505,19 @@ def evaluate(ctx, cases):
             w.h_enc = b1.add(['enc_relr', le, is64, ws])
             w.h_wf = b1.add(['relr_wf', is64, ws])
             w.h_spec = b1.add(['relr_spec', is64, ws])
+        elif kind == 'relr_hist':
+            le, is64, ws, via, hist = a
+            w.h_enc = b1.add(['enc_relr', le, is64, ws])
+            w.h_wf = b1.add(['relr_wf', is64, ws])
+            w.h_spec = b1.add(['spec_hist_relr', is64, ws, hist])
+            w.h_hok = b1.add(['hist_ok', False, 0, hist])
+        elif kind == 'rel_hist':
+            le, is64, em, rela, ents, gap, via, slack, hist = a
+            mips64 = is64 and em == EM['MIPS']
+            w.h_enc = b1.add(['enc_table', le, is64, mips64, rela, ents])
+            w.h_wf = b1.add(['rents_wf', is64, mips64, rela, ents])
+            w.h_spec = b1.add(['spec_hist_rel', is64, mips64, rela, ents, hist])
+            w.h_hok = b1.add(['hist_ok', True, len(ents), hist])
         elif kind == 'apply':
             em, le, is64, relocate, via, data, symvals, rsecs, gap = a
             mips64 = is64 and em == EM['MIPS']
@@ -454,6 +555,27 @@ def evaluate(ctx, cases):
             w.size = len(tbl) + slack
             w.h_model = b2.add(['model_table', le, is64, em, rela, w.img, w.offs[2], w.size])
             w.h_num = b2.add(['model_num', le, is64, em, rela, w.size])
+        elif kind == 'rel_hist':
+            le, is64, em, rela, ents, gap, via, slack, hist = a
+            tbl = b1[w.h_enc]
+            name = ('.rela' if rela else '.rel') + '.foo'
+            styp = (4 if rela else 9) if via == 'section' else 1
+            secs = [dict(name='.foo', type=1, data=b'\x11' * 5),
+                    dict(name=name, type=styp, data=tbl + bytes((7 * i + 3) % 251 + 1 for i in range(slack)),
+                         link=0, info=1, entsize=entsize_of(is64, rela))]
+            w.img, w.offs = build_elf(le, is64, em, 1, secs, gap=gap)
+            w.size = len(tbl) + slack
+            w.h_model = b2.add(['model_hist_rel', le, is64, em, rela, w.img, w.offs[2], w.size, hist])
+        elif kind == 'relr_hist':
+            le, is64, ws, via, hist = a
+            data = b1[w.h_enc]
+            if via == 'section':
+                secs = [dict(name='.relr.dyn', type=SHT['RELR'], data=data, entsize=8 if is64 else 4)]
+                w.img, w.offs = build_elf(le, is64, EM['X64'] if is64 else EM['X86'], 3, secs, gap=b'\x5a\x5b\x5c')
+                w.off = w.offs[1]
+            else:
+                w.img, w.off = b'\x33' * 5 + data + b'\x77' * 3, 5
+            w.h_model = b2.add(['model_hist_relr', le, is64, w.img, w.off, len(data), 8 if is64 else 4, hist])
         elif kind == 'relsec_entsize':
             le, is64, em, rela, es = a
             secs = [dict(name='.rela.foo' if rela else '.rel.foo', type=4 if rela else 9, data=b'\0' * 48, entsize=es)]
@@ -517,6 +639,10 @@ def evaluate(ctx, cases):
             ctx.record(kind, a, impl=impl, spec=m, model=m, in_domain=False, nontrivial=True)
         elif kind == 'relr':
             _eval_relr(ctx, w, b1, b2)
+        elif kind == 'relr_hist':
+            _eval_relr_hist(ctx, w, b1, b2)
+        elif kind == 'rel_hist':
+            _eval_rel_hist(ctx, w, b1, b2)
         elif kind == 'apply':
             _eval_apply(ctx, w, b1, b2)
         elif kind == 'dyn':
@@ -548,23 +674,116 @@ def _eval_table(ctx, w, b1, b2):
                nontrivial=len(ents) > 0)
 
 
-def _eval_relr(ctx, w, b1, b2):
+def _relr_table(img, off, size, le, is64, entsize):
+    """a bare RelrRelocationTable, as Dynamic.get_relocation_tables builds it: an elffile with stream + structs"""
     from elftools.elf.relocation import RelrRelocationTable
+    from elftools.elf.structs import ELFStructs
+    class FakeElf:
+        pass
+    fe = FakeElf()
+    fe.stream = io.BytesIO(img)
+    fe.structs = ELFStructs(little_endian=le, elfclass=64 if is64 else 32)
+    fe.structs.create_basic_structs()
+    fe.structs.create_advanced_structs(None, None, None)
+    return RelrRelocationTable(fe, off, size, entsize)
+
+
+def run_history(tab, hist, item):
+    """perform the calls of hist on the one table object tab; one answer per call, in the driver's shape.
+    An exception ends the call that raised it, not the history."""
+    gens = []
+    out = []
+    for op in hist:
+        t = op[0]
+        try:
+            if t == 'start':
+                gens.append(tab.iter_relocations())
+                a = 'unit'
+            elif t == 'next':
+                g = gens[op[1]]
+                if op[2] == 'for':
+                    a = 'stop'
+                    for r in g:
+                        a = ['item', item(r)]
+                        break
+                else:
+                    a = ['item', item(next(g))]
+            elif t == 'close':
+                if op[2] == 'del':
+                    gens[op[1]] = None        # last reference dropped: CPython finalises the generator now
+                else:
+                    gens[op[1]].close()
+                a = 'unit'
+            elif t == 'num':
+                a = ['int', tab.num_relocations()]
+            elif t == 'get':
+                a = ['item', item(tab.get_relocation(op[1]))]
+            else:
+                a = ['list', [item(r) for r in tab.iter_relocations()]]
+        except StopIteration:
+            a = 'stop'
+        except Exception as e:      # noqa: every exception class is an observation
+            a = ['err', type(e).__name__]
+        out.append(a)
+    return out
+
+
+def _hist_bumps(ctx, hist):
+    abandoned = False
+    open_walk = set()
+    for op in hist:
+        if op[0] == 'next':
+            open_walk.add(op[1])
+        elif op[0] in ('num', 'get', 'iter') and open_walk:
+            abandoned = True
+    ctx.bump('hist_len', len(hist) if len(hist) < 8 else '8+')
+    ctx.bump('hist_query_after_partial_walk', int(abandoned))
+
+
+def _eval_relr_hist(ctx, w, b1, b2):
+    le, is64, ws, via, hist = w.a
+    wsz = 8 if is64 else 4
+    def run():
+        if via == 'section':
+            tab = _open(w.img).get_section_by_name('.relr.dyn')
+            assert type(tab).__name__ == 'RelrRelocationSection'
+        else:
+            tab = _relr_table(w.img, w.off, len(ws) * wsz, le, is64, wsz)
+        return ok(run_history(tab, hist, lambda r: r['r_offset']))
+    impl = impl_call(run)
+    wf, noov = b1[w.h_wf]
+    lead_bitmap = bool(ws) and ws[0] & 1 == 1
+    _hist_bumps(ctx, hist)
+    ctx.record('relr_hist', w.a, impl=impl, spec=ok(b1[w.h_spec]), model=b2[w.h_model],
+               in_domain=bool(wf and noov and not lead_bitmap and b1[w.h_hok] == 1), nontrivial=len(hist) > 1,
+               key='relr-history-leading-bitmap' if lead_bitmap else 'relr-history')
+
+
+def _eval_rel_hist(ctx, w, b1, b2):
+    from elftools.elf.relocation import RelocationTable
+    le, is64, em, rela, ents, gap, via, slack, hist = w.a
+    def run():
+        elf = _open(w.img)
+        if via == 'section':
+            tab = elf.get_section_by_name(('.rela' if rela else '.rel') + '.foo')
+            assert type(tab).__name__ == 'RelocationSection'
+        else:
+            tab = RelocationTable(elf, w.offs[2], w.size, rela)
+        return ok(run_history(tab, hist, entry_items))
+    impl = impl_call(run)
+    _hist_bumps(ctx, hist)
+    ctx.record('rel_hist', w.a, impl=impl, spec=ok(b1[w.h_spec]), model=ok(b2[w.h_model]),
+               in_domain=bool(b1[w.h_wf] == 1 and b1[w.h_hok] == 1), nontrivial=len(hist) > 1, key='rel-history')
+
+
+def _eval_relr(ctx, w, b1, b2):
     le, is64, ws, via, entsize = w.a
     def run():
         if via == 'section':
             sec = _open(w.img).get_section_by_name('.relr.dyn')
             assert type(sec).__name__ == 'RelrRelocationSection'
         else:
-            class FakeElf:      # what Dynamic.get_relocation_tables hands over: an elffile with stream + structs
-                pass
-            from elftools.elf.structs import ELFStructs
-            fe = FakeElf()
-            fe.stream = io.BytesIO(w.img)
-            fe.structs = ELFStructs(little_endian=le, elfclass=64 if is64 else 32)
-            fe.structs.create_basic_structs()
-            fe.structs.create_advanced_structs(None, None, None)
-            sec = RelrRelocationTable(fe, w.off, len(ws) * (8 if is64 else 4), entsize)
+            sec = _relr_table(w.img, w.off, len(ws) * (8 if is64 else 4), le, is64, entsize)
         offs = [r['r_offset'] for r in sec.iter_relocations()]
         assert sec.num_relocations() == len(offs)
         assert [sec.get_relocation(i)['r_offset'] for i in range(len(offs))] == offs
@@ -729,8 +948,21 @@ def _eval_dyn(ctx, w, b1, b2, drv):
             assert isinstance(dyn, DynamicSection)
         out = []
         for k, t in dyn.get_relocation_tables().items():
+            # a client that peeks at the first entries and stops (suspended or closed walk) before the table is
+            # read: by C08_relr_history_exact / C08_rel_history_exact this changes no answer
+            try:
+                it = t.iter_relocations()
+                for _ in range(order % 3):
+                    next(it, None)
+                if order & 4:
+                    it.close()
+            except Exception:       # noqa: the full read below reports the error
+                pass
             if k == 'RELR':
-                out.append([k, 'relr', [r['r_offset'] for r in t.iter_relocations()]])
+                n = t.num_relocations()
+                offs = [r['r_offset'] for r in t.iter_relocations()]
+                assert n == len(offs) and [t.get_relocation(i)['r_offset'] for i in range(n)] == offs
+                out.append([k, 'relr', offs])
             else:
                 out.append([k] + _table_result(t))
         return ok(out)
